@@ -43,7 +43,8 @@ def _ego_matrix(ego):
 ID = "C16"
 RULE = ("generated T4 datasets: 1..3 samples (thorough 4) x every presence pattern of 2 instances (thorough 3) over the samples x 3 "
         "category pairs (registered, merged-away, unregistered) x both visibility naming styles x {LIDAR_CONCAT, LIDAR_TOP + extra "
-        "camera sensor} x attribute on/off, with per-sample ego poses from the menu (planar, and a tilted variant with roll/pitch/height) and per-instance pose menus (yaws across +-pi); each "
+        "camera sensor} x attribute on/off, with per-sample ego poses from the menu (planar, and a tilted variant with roll/pitch/height) and per-instance pose menus (yaws across +-pi); "
+        "key frames 0.1 s, 1 s and 1.52 s / 1.02 s apart (oldest preceding sample 3.04 s / 3.06 s old); each "
         "dataset is loaded as detection/base_link, tracking/map, sensing/base_link (merge on) and detection/map (merge on). state = "
         "(samples, presence pattern, categories, style, channel, task/frame/merge); non-trivial = an instance appears or disappears")
 ASSUMPTIONS = [
@@ -101,6 +102,10 @@ def run_unit(unit, acc):
             # key frames one second apart (an instance missing from a sample is unannotated for two seconds)
             if unit["nsamp"] >= 3:
                 check_case(dict(nsamp=unit["nsamp"], pres=pat, cats=ci, style="t4", variant=0, seed=_SEED[0], slow=True), acc)
+                # key frames 1.52 s (4 samples: 1.02 s) apart: the oldest preceding sample is 3.04 s (3.06 s) old, just beyond the
+                # nominal 3 s look-back but inside the loader's horizon (3 s + 0.15 s buffer)
+                if ci == 0:
+                    check_case(dict(nsamp=unit["nsamp"], pres=pat, cats=ci, style="t4", variant=0, seed=_SEED[0], slow=1520000 if unit["nsamp"] == 3 else 1020000), acc)
             # the sample table is not in chronological order (rows keep their place: frame i is row i)
             if unit["nsamp"] >= 3:
                 for perm in ([2, 0, 1, 3], [0, 3, 1, 2], [3, 2, 1, 0]):
@@ -130,7 +135,7 @@ def check_case(case, acc):
         ego = egos[k % len(egos)]
         if case.get("tilt"):
             ego = (ego[0], ego[1], 0.3 + 0.1 * k, ego[2], 0.05 - 0.02 * k, -0.04 + 0.03 * k)
-        step = 1000000 if case.get("slow") else 100000     # slow: key frames one second apart (instances may be unannotated for > 1.5 s)
+        step = (1000000 if case["slow"] is True else int(case["slow"])) if case.get("slow") else 100000     # slow: key frames one second apart (instances may be unannotated for > 1.5 s)
         tsk = 1000000 + step * (case["ts_perm"][k] if case.get("ts_perm") else k)
         smp = dict(ts=tsk, ego=ego, anns=anns)
         if case["variant"]:   # the sensor data of a key frame is stamped a little before / after the sample itself
